@@ -214,6 +214,14 @@ def group_specs(m: dict, reduced: bool = False) -> list[GroupSpec]:
         g = GroupSpec(tuple(bats), tuple(invs))
         if consistent([g]):
             out.append(g)
+    if not reduced:
+        # two batteries of different capacity whose SoCs straddle a limit: the capacity-weighted SoC is at / beyond the
+        # limit while the plain mean is not (charging: 70 % x 1000 Wh + 85 % x 3000 Wh; discharging: 15 % x 3000 Wh + 30 % x 1000 Wh)
+        for soc, cap in ((70.0, 1000.0), (15.0, 3000.0)):
+            for be, ie in ((0.0, 0.0), (100.0, 0.0)):
+                g = GroupSpec((BatSpec(soc, cap, be, 1000.0), BatSpec(soc + 15.0, 4000.0 - cap, 0.0, 600.0)), (InvSpec(ie, 1000.0),))
+                if consistent([g]):
+                    out.append(g)
     return out
 
 
